@@ -6,10 +6,10 @@ use crate::gen::{self, RandCfg};
 use serde_json::json;
 
 pub fn prop(caps: bool) -> DiffRef {
-    DiffRef { caps, allow_cond: false, cond_focus: false, omit_empty_no: false, only_pos0: false, f1_undisputed: false, free_cond_refs: false }
+    DiffRef { caps, allow_cond: false, cond_focus: false, omit_empty_no: false, only_pos0: false, f1_undisputed: false, free_cond_refs: false, ref_style: 0 }
 }
 pub fn prop_cond() -> DiffRef {
-    DiffRef { caps: true, allow_cond: true, cond_focus: true, omit_empty_no: false, only_pos0: false, f1_undisputed: false, free_cond_refs: false }
+    DiffRef { caps: true, allow_cond: true, cond_focus: true, omit_empty_no: false, only_pos0: false, f1_undisputed: false, free_cond_refs: false, ref_style: 0 }
 }
 
 pub fn stage<P: PatProp>(ctx: &RunCtx, o: &mut Outcome, p: &P, name: &str, pats: &[crate::ast::Node], texts: &[String]) -> bool {
@@ -99,6 +99,17 @@ pub fn run(ctx: &RunCtx, caps: bool) -> Outcome {
     };
     if !stage(ctx, &mut o, &p, "context x filler depth 2", &prods, &ptexts) {
         return o;
+    }
+    // the same references spelled \k<N> and relative \k<-n> (the parser resolves them on a path of their own)
+    {
+        let with_refs: Vec<_> = prods.iter().filter(|n| n.any(|x| matches!(x, crate::ast::Node::Backref(_)))).cloned().collect();
+        let rtexts = gen::texts(&['a', 'b', 'c'], 4);
+        for rs in [1u8, 2] {
+            let rp = DiffRef { ref_style: rs, ..prop(caps) };
+            if !stage(ctx, &mut o, &rp, if rs == 1 { "products with references spelled \\k<N>" } else { "products with references spelled \\k<-n>" }, &with_refs, &rtexts) {
+                return o;
+            }
+        }
     }
     // long texts (many loop iterations, deep branch stacks and long undo logs), offset 0 only
     {
